@@ -660,3 +660,540 @@ Proof.
   - (* LReadDir *) step_inv H. split; [exact F|]. destruct Wi; constructor; auto.
   - (* LParse *) step_inv H. auto.
 Qed.
+
+(* ---------------------------------------------------------------- what a step does to a finished file's writer *)
+Definition clears (s : state) (l : label) : option str :=
+  match l with
+  | LRm b Dat ROk => Some b
+  | LRename a true | LAbortRm a Dat ROk | LUnreserve a ROk => option_map w_base (nth_error (s_ws s) a)
+  | _ => None
+  end.
+
+Definition keeps (b : option str) (w x : writer) : Prop :=
+  same_core w x /\ (w_cok w = true -> w_cok x = true) /\
+  (w_gone x = true -> w_gone w = true \/ b = Some (w_base w)).
+
+Lemma keeps_refl b w : keeps b w w.
+Proof. unfold keeps. split; [apply same_core_refl|]. auto. Qed.
+
+Lemma keeps_clear b e w : keeps (match e with Dat => Some b | Tmp => None end) w (clear_claim b e w).
+Proof.
+  destruct (clear_claim_core b e w) as [C _]. destruct (clear_claim_fields b e w) as [_ [_ [_ [_ [_ [_ [_ [_ [F9 _]]]]]]]]].
+  unfold keeps. split; [exact C|]. split; [congruence|].
+  unfold clear_claim. destruct (str_eqb (w_base w) b) eqn:Eb; [|auto].
+  apply str_eqb_eq in Eb. destruct e, (w_lay w); try destruct (w_cok w); cbn; auto; right; congruence.
+Qed.
+
+Lemma keeps_none_any b w x : keeps None w x -> keeps b w x.
+Proof. unfold keeps. intros [A [B C]]. split; [exact A|]. split; [exact B|]. intro H. destruct (C H); [auto|discriminate]. Qed.
+
+Lemma keeps_trans b w x y : keeps b w x -> keeps None x y -> keeps b w y.
+Proof.
+  unfold keeps, same_core. intros [[A1 [A2 [A3 A4]]] [B C]] [[D1 [D2 [D3 D4]]] [E F0]].
+  split; [repeat split; congruence|]. split; [auto|]. intro H. destruct (F0 H) as [K|K]; [auto|discriminate].
+Qed.
+
+(* shapes of the writer list after a step *)
+Lemma keeps_upd s a w' f rd sc a0 w b :
+  W s a0 = Some w -> (forall wa, W s a = Some wa -> a0 = a -> keeps b wa w') ->
+  exists x, W (mkS f (upd a w' (s_ws s)) rd sc) a0 = Some x /\ keeps b w x.
+Proof.
+  intros Hw Hk. unfold W; cbn [s_ws]. rewrite nth_error_upd.
+  destruct (a0 =? a) eqn:E.
+  - apply Nat.eqb_eq in E. subst a0.
+    assert (Hlt : a < length (s_ws s)) by (apply nth_error_Some; unfold W in Hw; congruence).
+    apply Nat.ltb_lt in Hlt. rewrite Hlt. exists w'. split; [reflexivity|]. apply (Hk w Hw eq_refl).
+  - exists w. split; [exact Hw|apply keeps_refl].
+Qed.
+
+Lemma keeps_map_upd s a w' bb e f rd sc a0 w :
+  W s a0 = Some w ->
+  (forall wa, W s a = Some wa -> a0 = a -> keeps None (clear_claim bb e wa) w') ->
+  exists x, W (mkS f (upd a w' (map (clear_claim bb e) (s_ws s))) rd sc) a0 = Some x /\
+            keeps (match e with Dat => Some bb | Tmp => None end) w x.
+Proof.
+  intros Hw Hk. unfold W; cbn [s_ws]. rewrite nth_error_upd, map_length.
+  destruct (a0 =? a) eqn:E.
+  - apply Nat.eqb_eq in E. subst a0.
+    assert (Hlt : a < length (s_ws s)) by (apply nth_error_Some; unfold W in Hw; congruence).
+    apply Nat.ltb_lt in Hlt. rewrite Hlt. exists w'. split; [reflexivity|].
+    apply (keeps_trans _ _ (clear_claim bb e w)); [apply keeps_clear|apply (Hk w Hw eq_refl)].
+  - rewrite nth_error_map. unfold W in Hw. rewrite Hw. exists (clear_claim bb e w). split; [reflexivity|apply keeps_clear].
+Qed.
+
+Ltac kp_solve := unfold keeps, same_core; cbn; rewrite ?app_nil_r; intuition (try congruence).
+
+(* in the callback of keeps_upd: the writer in question is the actor *)
+Ltac is_actor Hw Ew :=
+  let wa := fresh "wa" in let Hwa := fresh "Hwa" in let Ea := fresh "Ea" in
+  intros wa Hwa Ea; subst; unfold W in *; rewrite Ew in Hw; rewrite Ew in Hwa;
+  injection Hwa as Hwa; subst wa; injection Hw as Hw;
+  match type of Hw with ?x = _ => subst x end.
+
+Ltac early_contra := match goal with Hl : early (w_ph ?w) = false, Hq : w_ph ?w = _ |- _ => rewrite Hq in Hl; discriminate Hl end.
+
+Lemma step_keeps c s l s' a0 w :
+  GInv s -> step c s l = Some s' -> W s a0 = Some w -> w_hasino w = true -> w_hopen w = false ->
+  exists x, W s' a0 = Some x /\ keeps (clears s l) w x.
+Proof.
+  intros G H Hw Hh Hho.
+  assert (Hlate : early (w_ph w) = false) by (apply (g_late _ G _ _ Hw Hh)).
+  destruct l; cbn [step] in H; cbn [clears].
+  - (* LBegin *) step_inv H. exists w. split; [|apply keeps_refl]. unfold W in *; cbn [s_ws].
+    rewrite nth_error_app1; [exact Hw|apply nth_error_Some; congruence].
+  - step_inv H; phase_of Hg; unfold set_w, set_fs_w; (apply keeps_upd; [exact Hw|]); is_actor Hw Ew; early_contra.
+  - step_inv H; phase_of Hg; unfold set_w, set_fs_w; (apply keeps_upd; [exact Hw|]); is_actor Hw Ew; early_contra.
+  - step_inv H; phase_of Hg; unfold set_w, set_fs_w; (apply keeps_upd; [exact Hw|]); is_actor Hw Ew; early_contra.
+  - (* LUnreserve *) step_inv H.
+    destruct r; cbn iota beta; rewrite ?nth_error_map, ?Ew; cbn [option_map].
+    + apply (keeps_map_upd s a _ (w_base w0) Dat); [exact Hw|]. is_actor Hw Ew; early_contra.
+    + apply keeps_upd; [exact Hw|]. is_actor Hw Ew; early_contra.
+    + apply keeps_upd; [exact Hw|]. is_actor Hw Ew; early_contra.
+  - step_inv H; phase_of Hg; unfold set_w, set_fs_w; (apply keeps_upd; [exact Hw|]); is_actor Hw Ew; early_contra.
+  - (* LWrite *) step_inv H. unfold set_fs_w. apply keeps_upd; [exact Hw|]. is_actor Hw Ew.
+    rewrite Hho in *. cbn in *. match goal with Hn : (n =? 0) = true |- _ => apply Nat.eqb_eq in Hn; subst n end. kp_solve.
+  - (* LLost *) step_inv H. unfold set_w. apply keeps_upd; [exact Hw|]. is_actor Hw Ew. destruct in_abort; kp_solve.
+  - (* LSync *) step_inv H; unfold set_w, set_fs_w; (apply keeps_upd; [exact Hw|]); is_actor Hw Ew; kp_solve.
+  - (* LHClose *) step_inv H; unfold set_w; try destruct ok; (apply keeps_upd; [exact Hw|]); is_actor Hw Ew; kp_solve.
+  - (* LRename *) step_inv H; phase_of Hg.
+    + rewrite nth_error_map, Ew. cbn [option_map].
+      apply (keeps_map_upd s a _ (w_base w0) Dat); [exact Hw|]. is_actor Hw Ew.
+      destruct (clear_claim_core (w_base w) Dat w) as [[C1 [C2 [C3 C4]]] _].
+      destruct (clear_claim_fields (w_base w) Dat w) as [_ [_ [_ [_ [_ [_ [_ [_ [F9 _]]]]]]]]].
+      destruct (n =? w_ino w); unfold keeps, same_core; cbn; intuition.
+    + unfold set_w. apply keeps_upd; [exact Hw|]. is_actor Hw Ew; kp_solve.
+  - (* LDirSync *) step_inv H; phase_of Hg; unfold set_w, set_fs_w; (apply keeps_upd; [exact Hw|]); is_actor Hw Ew; kp_solve.
+  - (* LAbortHClose *) step_inv H. unfold set_w. apply keeps_upd; [exact Hw|]. is_actor Hw Ew; kp_solve.
+  - (* LAbortRm *) step_inv H. phase_of Hg; destruct e; try discriminate Hg; destruct r; cbn iota beta;
+      rewrite ?nth_error_map, ?Ew; cbn [option_map].
+    all: try (apply (keeps_map_upd s a _ (w_base w0) Tmp); [exact Hw|]).
+    all: try (apply (keeps_map_upd s a _ (w_base w0) Dat); [exact Hw|]).
+    all: try (apply keeps_upd; [exact Hw|]).
+    all: is_actor Hw Ew.
+    all: try (destruct (clear_claim_core (w_base w) Tmp w) as [[C1 [C2 [C3 C4]]] _];
+              destruct (clear_claim_fields (w_base w) Tmp w) as [_ [_ [_ [_ [_ [_ [_ [_ [F9 _]]]]]]]]]).
+    all: try (destruct (clear_claim_core (w_base w) Dat w) as [[D1 [D2 [D3 D4]]] _];
+              destruct (clear_claim_fields (w_base w) Dat w) as [_ [_ [_ [_ [_ [_ [_ [_ [G9 _]]]]]]]]]).
+    all: destruct (own_check c); unfold keeps, same_core; cbn; intuition.
+  - (* LRm *) step_inv H.
+    + unfold W in *; cbn [s_ws]. rewrite nth_error_map, Hw. cbn [option_map]. eexists. split; [reflexivity|].
+      destruct e; [apply keeps_clear|apply keeps_none_any, (keeps_clear b Tmp)].
+    + exists w. split; [exact Hw|apply keeps_refl].
+    + exists w. split; [exact Hw|apply keeps_refl].
+  - step_inv H; exists w; (split; [exact Hw|apply keeps_refl]).
+  - step_inv H; exists w; (split; [exact Hw|apply keeps_refl]).
+  - step_inv H; exists w; (split; [exact Hw|apply keeps_refl]).
+Qed.
+
+(* ---------------------------------------------------------------- crash images (Prop level) *)
+Definition prefix (p c : str) : Prop := exists t, c = p ++ t.
+
+Definition power_image (f : fsys) (img : image) : Prop :=
+  NoDup (map fst img) /\
+  (forall n c, In (n, c) img ->
+     exists i x, In (Some i) (choices f n) /\ nth_error (f_ino f) i = Some x /\ prefix (i_dur x) c /\ prefix c (i_data x)) /\
+  (forall n, ~ In n (map fst img) -> In None (choices f n)).
+
+Definition crash_image (f : fsys) (img : image) : Prop := img = proc_image f \/ power_image f img.
+
+Lemma prefix_antisym p c : prefix p c -> prefix c p -> c = p.
+Proof.
+  intros [t1 E1] [t2 E2]. subst c. rewrite <- app_assoc in E2.
+  assert (L : length p = length (p ++ t1 ++ t2)) by (rewrite <- E2; reflexivity).
+  rewrite !app_length in L. destruct t1; [rewrite app_nil_r; reflexivity|simpl in L; lia].
+Qed.
+
+(* a final path bound (now, durably or pending) to an inode whose bytes parse: it is the complete,
+   fsynced file of a writer of that base whose handle is closed *)
+Lemma dat_bound_complete c s b i x :
+  GInv s -> FInv (s_fs s) -> WInv s -> valid c [] = false ->
+  bound (s_fs s) (b, Dat) i -> nth_error (f_ino (s_fs s)) i = Some x -> valid c (i_data x) = true ->
+  i_dur x = i_data x /\
+  exists a w, W s a = Some w /\ w_base w = b /\ w_hasino w = true /\ w_ino w = i /\
+              i_data x = w_written w /\ w_hopen w = false.
+Proof.
+  intros G F Wi Hv Hb Hx Hval.
+  split; [apply (f_sync _ F b i Hb x Hx)|].
+  pose proof (f_base _ F _ _ Hb) as Hib. cbn [fst] in Hib.
+  destruct (i_owner x) as [a|] eqn:Eo.
+  - assert (Ho : iown (s_fs s) i = Some (Some a)) by (unfold iown; rewrite Hx; cbn; congruence).
+    destruct (g_ino_w _ G _ _ Ho) as [w [Hw [Hh Hi]]]. destruct (g_w_ino _ G _ _ Hw Hh) as [_ Hd].
+    pose proof (w_ibase _ Wi _ _ Hw Hh) as Hwb. rewrite Hi, Hib in Hwb. inversion Hwb as [Eb].
+    exists a, w. repeat split; auto.
+    + rewrite Hi in Hd. unfold idata in Hd. rewrite Hx in Hd. cbn in Hd. congruence.
+    + apply (w_closed _ Wi _ _ Hw Hh). rewrite <- Eb, Hi. exact Hb.
+  - exfalso. assert (Ho : iown (s_fs s) i = Some None) by (unfold iown; rewrite Hx; cbn; congruence).
+    pose proof (g_res_empty _ G _ Ho) as Hd. unfold idata in Hd. rewrite Hx in Hd. cbn in Hd. inversion Hd. congruence.
+Qed.
+
+Lemma In_recover c img b d : In (b, d) (recover c img) <-> In ((b, Dat), d) img /\ valid c d = true.
+Proof.
+  unfold recover. rewrite in_flat_map. split.
+  - intros [[[b0 e] d0] [Hin H]]. destruct e; [|destruct H]. destruct (valid c d0) eqn:E; [|destruct H].
+    destruct H as [H|[]]. inversion H; subst. auto.
+  - intros [Hin Hv]. exists ((b, Dat), d). split; [exact Hin|]. rewrite Hv. left. reflexivity.
+Qed.
+
+Lemma In_proc_image f n d : dwf (f_dir f) -> In (n, d) (proc_image f) <-> exists i, D f n = Some i /\ d = data_of f i.
+Proof.
+  intro Hwf. unfold proc_image. rewrite in_map_iff. split.
+  - intros [[m i] [E Hin]]. cbn in E. inversion E; subst. exists i. split; [apply In_dlookup; assumption|reflexivity].
+  - intros [i [Hd ->]]. exists (n, i). split; [reflexivity|apply dlookup_In; exact Hd].
+Qed.
+
+(* only complete files of writers, nothing invented *)
+Lemma crash_sound c s img b d :
+  GInv s -> FInv (s_fs s) -> WInv s -> valid c [] = false -> crash_image (s_fs s) img ->
+  In (b, d) (recover c img) ->
+  exists a w, W s a = Some w /\ w_base w = b /\ w_hasino w = true /\ d = w_written w /\ w_hopen w = false /\
+              synced (s_fs s) (w_ino w) /\ bound (s_fs s) (b, Dat) (w_ino w).
+Proof.
+  intros G F Wi Hv Himg Hin. apply In_recover in Hin as [Hin Hval].
+  destruct Himg as [->|[_ [Hent _]]].
+  - apply (In_proc_image _ _ _ (g_dwf _ G)) in Hin as [i [Hd ->]].
+    assert (Hb : bound (s_fs s) (b, Dat) i) by (left; exact Hd).
+    rewrite data_of_idata in Hval. unfold idata in *.
+    destruct (nth_error (f_ino (s_fs s)) i) as [x|] eqn:Hx; [|cbn in Hval; congruence]. cbn in Hval.
+    destruct (dat_bound_complete c s b i x G F Wi Hv Hb Hx Hval) as [_ [a [w [Hw [Eb [Hh [Hi [Hd2 Hho]]]]]]]].
+    exists a, w. rewrite data_of_idata. unfold idata. rewrite Hx. cbn. subst i. repeat split; auto.
+    apply (f_sync _ F b _ Hb).
+  - destruct (Hent _ _ Hin) as [i [x [Hc [Hx [P1 P2]]]]].
+    assert (Hb : bound (s_fs s) (b, Dat) i) by (right; exact Hc).
+    pose proof (f_sync _ F b i Hb x Hx) as Hs. rewrite Hs in P1.
+    pose proof (prefix_antisym _ _ P1 P2) as Ed. subst d.
+    destruct (dat_bound_complete c s b i x G F Wi Hv Hb Hx Hval) as [_ [a [w [Hw [Eb [Hh [Hi [Hd2 Hho]]]]]]]].
+    exists a, w. subst i. repeat split; auto. apply (f_sync _ F b _ Hb).
+Qed.
+
+(* a file whose Close returned nil and that was not tombstoned survives every crash *)
+Lemma crash_keeps_live c s img a w :
+  GInv s -> LInv s -> FInv (s_fs s) -> WInv s -> crash_image (s_fs s) img ->
+  W s a = Some w -> w_cok w = true -> w_gone w = false -> valid c (w_written w) = true ->
+  In (w_base w, w_written w) (recover c img).
+Proof.
+  intros G L F Wi Himg Hw Hc Hg Hval. apply In_recover. split; [|exact Hval].
+  destruct (live_post s a w L Hw Hc Hg) as [_ [Hh Hd]].
+  destruct (g_w_ino _ G _ _ Hw Hh) as [_ Hdat].
+  destruct Himg as [->|[Hnd [Hent Habs]]].
+  - apply (In_proc_image _ _ _ (g_dwf _ G)). exists (w_ino w). split; [exact Hd|].
+    rewrite data_of_idata, Hdat. reflexivity.
+  - destruct (in_dec fname_dec (w_base w, Dat) (map fst img)) as [Hin|Hnin].
+    + apply in_map_iff in Hin as [[n d] [En Hin]]. cbn in En. subst n.
+      destruct (Hent _ _ Hin) as [i [x [Hc2 [Hx [P1 P2]]]]].
+      pose proof (w_dur _ Wi _ _ Hw Hc Hg _ Hc2) as Ei. inversion Ei; subst i.
+      assert (Hb : bound (s_fs s) (w_base w, Dat) (w_ino w)) by (left; exact Hd).
+      pose proof (f_sync _ F _ _ Hb x Hx) as Hs. rewrite Hs in P1.
+      pose proof (prefix_antisym _ _ P1 P2) as Ed. subst d.
+      unfold idata in Hdat. rewrite Hx in Hdat. cbn in Hdat. inversion Hdat as [E]. first [exact Hin | rewrite E in Hin; exact Hin | rewrite <- E; exact Hin].
+    + exfalso. pose proof (w_dur _ Wi _ _ Hw Hc Hg _ (Habs _ Hnin)). discriminate.
+Qed.
+
+Lemma recover_nodup c img : NoDup (map fst img) -> NoDup (map fst (recover c img)).
+Proof.
+  induction img as [|[[b e] d] t IH]; simpl; intro H; [constructor|].
+  inversion H; subst. destruct e; [|auto]. destruct (valid c d); [|auto].
+  simpl. constructor; [|auto]. intro Hin. apply in_map_iff in Hin as [[b0 d0] [E Hin]]. cbn in E. subst b0.
+  apply In_recover in Hin as [Hin _]. apply H2. apply in_map_iff. exists ((b, Dat), d0). auto.
+Qed.
+
+Lemma proc_image_names f : map fst (proc_image f) = map fst (f_dir f).
+Proof. unfold proc_image. rewrite map_map. reflexivity. Qed.
+
+Lemma crash_nodup c s img : GInv s -> crash_image (s_fs s) img -> NoDup (map fst (recover c img)).
+Proof.
+  intros G [->|[H _]]; apply recover_nodup; [rewrite proc_image_names; apply (g_dwf _ G)|exact H].
+Qed.
+
+(* ---------------------------------------------------------------- engine level *)
+Record SInv (s : state) : Prop := mkSInv {
+  si_g : GInv s; si_l : LInv s; si_f : FInv (s_fs s); si_w : WInv s }.
+
+Lemma sinv_init : SInv s0.
+Proof. constructor; [apply ginv_init|apply linv_init|apply finv_init|apply winv_init]. Qed.
+
+Lemma sinv_step c s l s' : SInv s -> guard_ok s l = true -> step c s l = Some s' -> SInv s'.
+Proof.
+  intros [G L F Wi] Hg H. destruct (dinv_step c s l s' G L F Wi Hg H) as [F' W'].
+  constructor; [apply (ginv_step _ _ _ _ G H)|apply (linv_step _ _ _ _ G L Hg H)|exact F'|exact W'].
+Qed.
+
+Lemma In_enumerate {A} (l : list A) k a x : In (a, x) (enumerate k l) <-> k <= a /\ nth_error l (a - k) = Some x.
+Proof.
+  revert k. induction l as [|y t IH]; intro k; simpl.
+  - split; [tauto|]. intros [_ H]. destruct (a - k); discriminate.
+  - rewrite IH. split.
+    + intros [E|[Hle Hn]].
+      * inversion E; subst. split; [lia|]. rewrite Nat.sub_diag. reflexivity.
+      * split; [lia|]. replace (a - k) with (S (a - S k)) by lia. exact Hn.
+    + intros [Hle Hn]. destruct (Nat.eq_dec a k) as [->|Hne].
+      * left. rewrite Nat.sub_diag in Hn. inversion Hn. reflexivity.
+      * right. split; [lia|]. replace (a - k) with (S (a - S k)) in Hn by lia. exact Hn.
+Qed.
+
+Lemma memb_In a l : memb a l = true <-> In a l.
+Proof.
+  unfold memb. rewrite existsb_exists. split.
+  - intros [x [Hx E]]. apply Nat.eqb_eq in E. subst. exact Hx.
+  - intro H. exists a. split; [exact H|apply Nat.eqb_refl].
+Qed.
+
+Definition acks_live (es : estate) : Prop :=
+  forall a, In a (e_acked es) -> exists w, W (e_s es) a = Some w /\ w_cok w = true /\ w_gone w = false.
+
+(* the actor of a claim-clearing step holds a claim and has not finished *)
+Lemma clears_actor c s l s' b :
+  LInv s -> step c s l = Some s' -> clears s l = Some b ->
+  (exists e r, l = LRm b e r) \/
+  (exists a wa, W s a = Some wa /\ w_base wa = b /\ w_lay wa <> LNone /\ w_cok wa = false).
+Proof.
+  intros L H Hc. destruct l; cbn [clears] in Hc; try discriminate.
+  - (* LUnreserve *) destruct r; try discriminate. cbn [step] in H. step_inv H. unfold W.
+    cbn in Hc. inversion Hc. right. exists a, w. split; [exact Ew|]. split; [reflexivity|].
+    pose proof (l_ph _ L _ _ Ew) as Hp. unfold ph_ok, quiet, calmf in Hp. rewrite Heqp in Hp. intuition congruence.
+  - (* LRename *) destruct ok; try discriminate. cbn [step] in H. step_inv H. phase_of Hg.
+    cbn in Hc. inversion Hc. right. exists a, w. split; [exact Ew|]. split; [reflexivity|].
+    pose proof (l_ph _ L _ _ Ew) as Hp. unfold ph_ok, quiet, calmf in Hp. rewrite Heqp in Hp. intuition congruence.
+  - (* LAbortRm *) destruct e; try discriminate. destruct r; try discriminate. cbn [step] in H. step_inv H.
+    cbn in Hc. inversion Hc. right. exists a, w. split; [exact Ew|]. split; [reflexivity|].
+    pose proof (l_ph _ L _ _ Ew) as Hp. unfold ph_ok, quiet, calmf in Hp. phase_of Hg; try discriminate Hg; intuition congruence.
+  - (* LRm *) destruct e; try discriminate. destruct r; try discriminate. inversion Hc. left. eauto.
+Qed.
+
+(* a finished, untombstoned file stays so unless this very step is a removal of its pointer *)
+Lemma live_step c s l s' a w :
+  SInv s -> guard_ok s l = true -> step c s l = Some s' ->
+  W s a = Some w -> w_cok w = true -> w_gone w = false ->
+  exists x, W s' a = Some x /\ w_cok x = true /\ same_core w x /\
+    (w_gone x = false \/ exists r, l = LRm (w_base w) Dat r).
+Proof.
+  intros [G L F Wi] Hg H Hw Hc Hgo.
+  destruct (live_post s a w L Hw Hc Hgo) as [Hl [Hh _]].
+  pose proof (cok_rest _ (l_ph _ L _ _ Hw) Hc) as [_ [_ [H3 _]]]. destruct (H3 Hc) as [_ [Hho _]].
+  destruct (step_keeps c s l s' a w G H Hw Hh Hho) as [x [Hx [Hcore [Hck Hgone]]]].
+  exists x. split; [exact Hx|]. split; [auto|]. split; [exact Hcore|].
+  destruct (w_gone x) eqn:Egx; [|left; reflexivity]. right.
+  destruct (Hgone eq_refl) as [K|K]; [congruence|].
+  destruct (clears_actor c s l s' _ L H K) as [[e [r El]]|[a' [wa [Ha' [Eb [Hnn Hcf]]]]]].
+  - subst l. cbn [clears] in K. destruct e; [|destruct r; discriminate]. exists r. reflexivity.
+  - exfalso. assert (Hne : a' <> a) by (intro; subst a'; rewrite Hw in Ha'; inversion Ha'; congruence).
+    destruct (l_uniq _ L a' a wa w Hne Ha' Hw Eb); congruence.
+Qed.
+
+Lemma flush_estep c es el es' :
+  SInv (e_s es) -> acks_live es -> estep c flush_disc es el = Some es' -> SInv (e_s es') /\ acks_live es'.
+Proof.
+  intros S A H. destruct el as [l|a]; cbn [estep] in H.
+  - destruct (flush_disc es l) eqn:Ed; [|discriminate]. destruct (step c (e_s es) l) as [s'|] eqn:E; [|discriminate].
+    inversion H; subst es'. cbn [e_s e_acked]. unfold flush_disc in Ed. apply andb_true_iff in Ed as [Hg Hx].
+    split; [apply (sinv_step _ _ _ _ S Hg E)|].
+    intros a Ha. cbn [e_acked] in Ha. destruct (A a Ha) as [w [Hw [Hc Hgo]]].
+    destruct (live_step c _ l s' a w S Hg E Hw Hc Hgo) as [x [Hx1 [Hx2 [_ [Hx3|[r El]]]]]]; [exists x; auto|].
+    exfalso. subst l. rewrite forallb_forall in Hx.
+    assert (Hin : In (a, w) (enumerate 0 (s_ws (e_s es)))) by (apply In_enumerate; split; [lia|rewrite Nat.sub_0_r; exact Hw]).
+    specialize (Hx _ Hin). cbn [fst snd] in Hx. unfold live_file in Hx.
+    rewrite str_eqb_refl, Hc, Hgo, (proj2 (memb_In a _) Ha) in Hx. discriminate.
+  - destruct (nth_error (s_ws (e_s es)) a) as [w|] eqn:Ew; [|discriminate].
+    destruct (live_file w) eqn:El; [|discriminate]. inversion H; subst es'. cbn [e_s e_acked].
+    split; [exact S|]. intros a' [<-|Ha'].
+    + exists w. unfold live_file in El. apply andb_true_iff in El as [E1 E2]. apply negb_true_iff in E2. auto.
+    + apply (A a' Ha').
+Qed.
+
+Lemma flush_erun c els : forall es es',
+  SInv (e_s es) -> acks_live es -> erun c flush_disc es els = Some es' -> SInv (e_s es') /\ acks_live es'.
+Proof.
+  induction els as [|el t IH]; simpl; intros es es' S A H.
+  - inversion H; subst. auto.
+  - destruct (estep c flush_disc es el) as [es1|] eqn:E; [|discriminate].
+    destruct (flush_estep c es el es1 S A E) as [S1 A1]. apply (IH es1 es' S1 A1 H).
+Qed.
+
+(* C15, flush-only histories (ingest, flush, failed flushes with their cleanup), any failures,
+   crash at any os-call boundary, process crash or power loss *)
+Lemma crash_flush_only c els es img :
+  erun c flush_disc e0 els = Some es -> valid c [] = false -> crash_image (s_fs (e_s es)) img ->
+  (forall b d, In (b, d) (recover c img) ->
+     exists a w, W (e_s es) a = Some w /\ w_base w = b /\ w_hasino w = true /\ d = w_written w /\
+                 w_hopen w = false /\ synced (s_fs (e_s es)) (w_ino w) /\ bound (s_fs (e_s es)) (b, Dat) (w_ino w)) /\
+  (forall a w, In a (e_acked es) -> W (e_s es) a = Some w -> valid c (w_written w) = true ->
+     In (w_base w, w_written w) (recover c img)) /\
+  NoDup (map fst (recover c img)).
+Proof.
+  intros H Hv Himg.
+  assert (A0 : acks_live e0) by (intros a []).
+  destruct (flush_erun c els e0 es sinv_init A0 H) as [[G L F Wi] A].
+  split; [|split].
+  - intros b d Hin. apply (crash_sound c _ img b d G F Wi Hv Himg Hin).
+  - intros a w Ha Hw Hval. destruct (A a Ha) as [w' [Hw' [Hc Hg]]]. rewrite Hw in Hw'. inversion Hw'; subst w'.
+    apply (crash_keeps_live c _ img a w G L F Wi Himg Hw Hc Hg Hval).
+  - apply (crash_nodup c _ img G Himg).
+Qed.
+
+(* ---------------------------------------------------------------- histories with merges *)
+Definition holders (rows : nat -> list nat) (es : estate) : Prop :=
+  forall a r, In a (e_acked es) -> In r (rows a) ->
+    exists m w, W (e_s es) m = Some w /\ w_cok w = true /\ w_gone w = false /\ In r (rows m).
+
+Lemma merge_estep rows c es el es' :
+  SInv (e_s es) -> holders rows es -> estep c (merge_disc rows) es el = Some es' ->
+  SInv (e_s es') /\ holders rows es'.
+Proof.
+  intros S A H. destruct el as [l|a]; cbn [estep] in H.
+  - destruct (merge_disc rows es l) eqn:Ed; [|discriminate]. destruct (step c (e_s es) l) as [s'|] eqn:E; [|discriminate].
+    inversion H; subst es'. cbn [e_s e_acked]. unfold merge_disc in Ed. apply andb_true_iff in Ed as [Hg Hx].
+    split; [apply (sinv_step _ _ _ _ S Hg E)|].
+    intros a r Ha Hr. cbn [e_acked] in Ha. destruct (A a r Ha Hr) as [m [w [Hw [Hc [Hgo Hrm]]]]]. cbn [e_s].
+    destruct (live_step c _ l s' m w S Hg E Hw Hc Hgo) as [x [Hx1 [Hx2 [_ [Hx3|[r0 El]]]]]]; [exists m, x; auto|].
+    (* the holder's file is being removed: another live file holds all its rows *)
+    assert (Hl1 : w_lay w = LPost) by (destruct S as [G L F Wi]; apply (live_post _ m w L Hw Hc Hgo)).
+    subst l. rewrite forallb_forall in Hx.
+    assert (Hin : In (m, w) (enumerate 0 (s_ws (e_s es)))) by (apply In_enumerate; split; [lia|rewrite Nat.sub_0_r; exact Hw]).
+    specialize (Hx _ Hin). cbn [fst snd] in Hx. unfold live_file in Hx. rewrite str_eqb_refl, Hc, Hgo in Hx. cbn in Hx.
+    unfold covered in Hx. apply existsb_exists in Hx as [[m' w'] [Hin' Hp]]. cbn [fst snd] in Hp.
+    apply andb_true_iff in Hp as [Hp Hsub]. apply andb_true_iff in Hp as [Hne Hlive'].
+    apply negb_true_iff, Nat.eqb_neq in Hne. unfold live_file in Hlive'. apply andb_true_iff in Hlive' as [Hc' Hg'].
+    apply negb_true_iff in Hg'. apply In_enumerate in Hin' as [_ Hw']. rewrite Nat.sub_0_r in Hw'.
+    rewrite forallb_forall in Hsub. specialize (Hsub r Hrm). apply memb_In in Hsub.
+    destruct (live_step c _ _ s' m' w' S Hg E Hw' Hc' Hg') as [x' [Hy1 [Hy2 [_ [Hy3|[r1 El]]]]]]; [exists m', x'; auto|].
+    exfalso. inversion El as [Eb]. destruct S as [G L F Wi].
+    destruct (live_post _ m' w' L Hw' Hc' Hg') as [Hl2 _].
+    destruct (l_uniq _ L m' m w' w Hne Hw' Hw (eq_sym Eb)); congruence.
+  - destruct (nth_error (s_ws (e_s es)) a) as [w|] eqn:Ew; [|discriminate].
+    destruct (live_file w) eqn:El; [|discriminate]. inversion H; subst es'. cbn [e_s e_acked].
+    split; [exact S|]. intros a' r [<-|Ha'] Hr.
+    + exists a, w. unfold live_file in El. apply andb_true_iff in El as [E1 E2]. apply negb_true_iff in E2. auto.
+    + apply (A a' r Ha' Hr).
+Qed.
+
+Lemma merge_erun rows c els : forall es es',
+  SInv (e_s es) -> holders rows es -> erun c (merge_disc rows) es els = Some es' -> SInv (e_s es') /\ holders rows es'.
+Proof.
+  induction els as [|el t IH]; simpl; intros es es' S A H.
+  - inversion H; subst. auto.
+  - destruct (estep c (merge_disc rows) es el) as [es1|] eqn:E; [|discriminate].
+    destruct (merge_estep rows c es el es1 S A E) as [S1 A1]. apply (IH es1 es' S1 A1 H).
+Qed.
+
+(* C15 with merges: nothing is lost and nothing is invented; the no-duplicate clause is not claimed *)
+Lemma crash_merge rows c els es img :
+  erun c (merge_disc rows) e0 els = Some es -> valid c [] = false -> crash_image (s_fs (e_s es)) img ->
+  (forall m w, W (e_s es) m = Some w -> w_cok w = true -> valid c (w_written w) = true) ->
+  (forall b d, In (b, d) (recover c img) ->
+     exists a w, W (e_s es) a = Some w /\ w_base w = b /\ w_hasino w = true /\ d = w_written w /\
+                 w_hopen w = false /\ synced (s_fs (e_s es)) (w_ino w) /\ bound (s_fs (e_s es)) (b, Dat) (w_ino w)) /\
+  (forall a r, In a (e_acked es) -> In r (rows a) ->
+     exists m w, W (e_s es) m = Some w /\ In r (rows m) /\ In (w_base w, w_written w) (recover c img)) /\
+  NoDup (map fst (recover c img)).
+Proof.
+  intros H Hv Himg Hval.
+  assert (A0 : holders rows e0) by (intros a r []).
+  destruct (merge_erun rows c els e0 es sinv_init A0 H) as [[G L F Wi] A].
+  split; [|split].
+  - intros b d Hin. apply (crash_sound c _ img b d G F Wi Hv Himg Hin).
+  - intros a r Ha Hr. destruct (A a r Ha Hr) as [m [w [Hw [Hc [Hg Hrm]]]]]. exists m, w. split; [exact Hw|]. split; [exact Hrm|].
+    apply (crash_keeps_live c _ img m w G L F Wi Himg Hw Hc Hg (Hval m w Hw Hc)).
+  - apply (crash_nodup c _ img G Himg).
+Qed.
+
+(* ---------------------------------------------------------------- the executable check of power-loss images is sound *)
+Lemma is_prefix_prefix p s : is_prefix p s = true -> prefix p s.
+Proof.
+  revert s. induction p as [|x p IH]; intros s H.
+  - exists s. reflexivity.
+  - destruct s as [|y s]; [discriminate|]. simpl in H. apply andb_true_iff in H as [E H].
+    apply N.eqb_eq in E. subst y. destruct (IH s H) as [t ->]. exists t. reflexivity.
+Qed.
+
+Lemma nodup_names_NoDup l : nodup_names l = true -> NoDup l.
+Proof.
+  induction l as [|n t IH]; simpl; intro H; [constructor|].
+  apply andb_true_iff in H as [H1 H2]. constructor; [|auto].
+  intro Hin. apply negb_true_iff in H1. assert (existsb (fname_eqb n) t = true); [|congruence].
+  apply existsb_exists. exists n. split; [exact Hin|apply fname_eqb_refl].
+Qed.
+
+Lemma dlookup_notin n d : ~ In n (map fst d) -> dlookup n d = None.
+Proof.
+  induction d as [|[m i] t IH]; simpl; intro H; [reflexivity|].
+  destruct (fname_eqb n m) eqn:E; [apply fname_eqb_eq in E; subst; tauto|]. apply IH. tauto.
+Qed.
+
+Lemma power_okb_sound f img : power_okb f img = true -> power_image f img.
+Proof.
+  unfold power_okb. intro H. apply andb_true_iff in H as [H H3]. apply andb_true_iff in H as [H1 H2].
+  split; [apply nodup_names_NoDup; exact H1|]. split.
+  - intros n c Hin. rewrite forallb_forall in H2. specialize (H2 _ Hin). unfold entry_okb in H2. cbn [fst snd] in H2.
+    apply existsb_exists in H2 as [v [Hv Hok]]. destruct v as [i|]; [|discriminate].
+    destruct (nth_error (f_ino f) i) as [x|] eqn:Hx; [|discriminate].
+    unfold content_okb in Hok. apply andb_true_iff in Hok as [P1 P2].
+    exists i, x. repeat split; auto; apply is_prefix_prefix; assumption.
+  - intros n Hn. rewrite forallb_forall in H3.
+    destruct (in_dec fname_dec n (map fst (f_ddir f) ++ map fst (f_pend f))) as [Hin|Hnin].
+    + specialize (H3 _ Hin). unfold absent_okb in H3. apply orb_true_iff in H3 as [H3|H3].
+      * exfalso. apply existsb_exists in H3 as [e [He E]]. apply fname_eqb_eq in E. subst n. apply Hn. apply in_map. exact He.
+      * apply existsb_exists in H3 as [v [Hv E]]. destruct v; [discriminate|exact Hv].
+    + unfold choices. left. apply dlookup_notin. intro K. apply Hnin. apply in_or_app. left. exact K.
+Qed.
+
+(* ---------------------------------------------------------------- witnesses *)
+Definition wcfg : cfg := mkC true 100 (fun d => negb (length d =? 0)).
+
+Definition flush_labels (a : nat) (b : str) (d : str) : list elabel :=
+  map EL [LBegin a; LReserve a b COk; LResClose a true; LTmpCreate a COk; LWrite a d (length d);
+          LSync a true; LHClose a true; LRename a true; LDirSync a true].
+
+(* two flushes (rows 1 and 2), acknowledged; then a merge writes and publishes its output *)
+Definition wrows (a : nat) : list nat := match a with 0 => [1] | 1 => [2] | 2 => [1; 2] | _ => [] end.
+Definition hist_publish : list elabel :=
+  flush_labels 0 (lit "x") (lit "A") ++ [EAck 0] ++ flush_labels 1 (lit "y") (lit "B") ++ [EAck 1]
+  ++ flush_labels 2 (lit "z") (lit "AB").
+(* ... and its Update removes the sources (no directory fsync follows) *)
+Definition hist_removed : list elabel :=
+  hist_publish ++ map EL [LRm (lit "x") Dat ROk; LRm (lit "y") Dat ROk].
+
+Definition img_all : image := [((lit "x", Dat), lit "A"); ((lit "y", Dat), lit "B"); ((lit "z", Dat), lit "AB")].
+
+Lemma not_nodup_1212 : ~ NoDup [1; 2; 1; 2].
+Proof. intro H. inversion H as [|? ? Hn _]. apply Hn. simpl. auto. Qed.
+
+(* process crash between the publish of the merge output and the removal of its sources *)
+Lemma merge_window_process :
+  exists es, erun wcfg (merge_disc wrows) e0 hist_publish = Some es /\
+    crash_image (s_fs (e_s es)) (proc_image (s_fs (e_s es))) /\
+    e_acked es = [1; 0] /\
+    ~ NoDup (rows_of wrows (recovered_writers wcfg (e_s es) (proc_image (s_fs (e_s es))))).
+Proof.
+  eexists. split; [vm_compute; reflexivity|]. split; [left; reflexivity|]. split; [reflexivity|].
+  vm_compute. exact not_nodup_1212.
+Qed.
+
+(* power loss after the removal of the sources: the removals were never fsynced *)
+Lemma merge_window_power :
+  exists es, erun wcfg (merge_disc wrows) e0 hist_removed = Some es /\
+    proc_image (s_fs (e_s es)) = [((lit "z", Dat), lit "AB")] /\
+    crash_image (s_fs (e_s es)) img_all /\
+    ~ NoDup (rows_of wrows (recovered_writers wcfg (e_s es) img_all)).
+Proof.
+  eexists. split; [vm_compute; reflexivity|]. split; [vm_compute; reflexivity|].
+  split; [right; apply power_okb_sound; vm_compute; reflexivity|].
+  vm_compute. exact not_nodup_1212.
+Qed.
+
+(* non-vacuity of the flush-only theorem: an acknowledged flush, then a failed flush with its
+   cleanup, then a power loss that keeps the reservation of a third, unfinished flush *)
+Definition hist_flush : list elabel :=
+  flush_labels 0 (lit "x") (lit "A") ++ [EAck 0]
+  ++ map EL [LBegin 1; LReserve 1 (lit "y") COk; LResClose 1 true; LTmpCreate 1 COk; LWrite 1 (lit "B") 1;
+             LSync 1 true; LHClose 1 true; LRename 1 true; LDirSync 1 false;
+             LAbortHClose 1; LAbortRm 1 Tmp RNoent; LAbortRm 1 Dat ROk; LRm (lit "y") Dat RNoent; LRm (lit "y") Tmp RNoent;
+             LBegin 2; LReserve 2 (lit "z") COk].
+
+Lemma flush_nonvacuous :
+  exists es, erun wcfg flush_disc e0 hist_flush = Some es /\ e_acked es = [0] /\
+    crash_image (s_fs (e_s es)) [((lit "x", Dat), lit "A"); ((lit "y", Dat), lit "B"); ((lit "z", Dat), [])] /\
+    recover wcfg [((lit "x", Dat), lit "A"); ((lit "y", Dat), lit "B"); ((lit "z", Dat), [])]
+      = [(lit "x", lit "A"); (lit "y", lit "B")].
+Proof.
+  eexists. split; [vm_compute; reflexivity|]. split; [reflexivity|].
+  split; [right; apply power_okb_sound; vm_compute; reflexivity|reflexivity].
+Qed.
